@@ -12,8 +12,9 @@ From SS.gen Require Import SrcFacts.
 
 (* the code has the discipline the theorems need (breaks when the source changes) *)
 Theorem C13_instance :
-  facts_disc = good /\ SrcFacts.c13_entry_points_push = true.
-Proof. exact (conj facts_disc_good code_entry_points_push). Qed.
+  facts_disc = good /\ SrcFacts.c13_entry_points_push = true
+  /\ SrcFacts.c13_fresh_result_lists = true.
+Proof. exact (conj facts_disc_good (conj code_entry_points_push code_fresh_result_lists)). Qed.
 Print Assumptions C13_instance.
 
 (* every thread observes a prefix of -- and, once its history is finished, exactly -- the
